@@ -2648,6 +2648,157 @@ def c03_structure(units, R):
     R.floor('C03S', 'structure obligations', len([o for o in R.obs if o.rule == 'C03S']), 12)
 
 
+# ---- ENT1: the entry point refuses a text only because its value cannot be parsed -----------------------------------------------
+
+def _offlen_form(e):
+    """Linear form {offset: a, length: b, 1: c} of an expression over B.offset / B.length and constants, or None."""
+    e = strip_casts(e)
+    v = const_val(e)
+    if v is not None:
+        return {1: v}
+    if e.get('k') == 'mem' and e['f'] in ('offset', 'length'):
+        return {e['f']: 1}
+    if e.get('k') == 'bin' and e['op'] in ('+', '-'):
+        l, r = _offlen_form(e['l']), _offlen_form(e['r'])
+        if l is None or r is None:
+            return None
+        out = dict(l)
+        for k_, v_ in r.items():
+            out[k_] = out.get(k_, 0) + (v_ if e['op'] == '+' else -v_)
+        return out
+    return None
+
+
+def ent1(units, R, fn_name='cJSON_ParseWithLengthOpts', parser='parse_value', floor=3):
+    """In front of the call of the value parser, the entry point gives up only for reasons that are not about the text (a missing
+    argument, no memory) or that imply that the value parser would refuse as well: nothing readable at the cursor, or a byte at
+    the cursor that opens no value.  A test of its own that is weaker than that refuses texts the grammar accepts."""
+    u = units['cJSON.c']
+    if fn_name not in u.functions:
+        raise AnalysisBroken('ENT1: anchor function %s not found' % fn_name)
+    fn = u.fn(fn_name)
+    cfg = fn.cfg()
+    openers = set().union(*EXPECTED_FIRST_BYTES.values()) | {ord('n'), ord('t'), ord('f')}
+
+    def roots(n):
+        if n.kind == 'decl':
+            return [n.decl['init']] if 'init' in n.decl else []
+        return [n.expr] if getattr(n, 'expr', None) is not None else []
+    pv = {n.id for n in cfg.nodes if any(c.get('k') == 'call' and callee_name(c) == parser for r_ in roots(n) for c in walk(r_))}
+    if not pv:
+        raise AnalysisBroken('ENT1: %s does not call %s' % (fn_name, parser))
+    good = [r.id for r in cfg.returns() if r.expr is not None and not is_null_const(r.expr)]
+    if not good:
+        raise AnalysisBroken('ENT1: %s has no successful return' % fn_name)
+    alive = set()
+    for g in good:
+        alive |= cfg.reachable(g, forward=False)
+    pre = cfg.reachable(stop=pv) | pv
+    assigns = list(assignments(fn))
+
+    def defs_of(d):
+        out = [x['init'] for x in fn.locals() if x['d'] == d and 'init' in x]
+        out += [a['r'] for a in assigns if is_ref(a['l']) and strip_casts(a['l'])['d'] == d]
+        return out
+
+    def is_cursor(b):
+        b = strip_casts(b)
+        return b.get('k') == 'bin' and b['op'] == '+' and is_mem(b['l'], 'content') and is_mem(b['r'], 'offset')
+
+    def call_reason(c):
+        cn = callee_name(c)
+        if cn == parser:
+            return 'the value parser fails'
+        from .bnd import RETURNS_ARG
+        if cn in RETURNS_ARG:
+            return '%s hands back no buffer' % cn
+        rec = None
+        try:
+            from .bnd import _parse_buffer_record
+            rec = _parse_buffer_record(u)
+        except AnalysisBroken:
+            pass
+        if not any(rec and rec in u.ty(a['ty'])['s'] for a in c['args'] if 'ty' in a):
+            return 'a call that does not look at the text yields nothing (%s)' % (cn or 'through a hook')
+        return None
+    n = 0
+    for nd in cfg.nodes:
+        if nd.id not in pre or nd.id not in alive:
+            continue
+        for (m, label) in cfg.succ[nd.id]:
+            if m in alive:
+                continue
+            if label is None or label[0] not in ('T', 'F'):
+                raise AnalysisBroken('ENT1: %s: %s is left for the failure exit without a test' % (fn_name, fn.where(nd.expr) if roots(nd) else '?'))
+            taken = label[0] == 'T'
+            c = strip_casts(label[1])
+            while c.get('k') == 'un' and c['op'] == '!':
+                c = strip_casts(c['e'])
+                taken = not taken
+            n += 1
+            refs = [x for x in walk(c) if x.get('k') == 'ref' and x.get('dk') != 'fn']
+            calls = [x for x in walk(c) if x.get('k') == 'call']
+            what = 'before the value is parsed, %s gives up on %s %s only for a reason that makes the value unparsable too' % (
+                fn_name, expr_str(c)[:60], 'true' if taken else 'false')
+            key = 'refusal:%s:%s' % (expr_str(c)[:50], taken)
+            if refs and all(x.get('dk') == 'param' for x in refs) and not calls and not any(x.get('k') == 'mem' for x in walk(c)):
+                R.ob('ENT1', fn, label[1], what, True, 'a test of the arguments alone', key=key)
+                continue
+            if calls:
+                why = [call_reason(x) for x in calls]
+                if all(why):
+                    R.ob('ENT1', fn, label[1], what, True, why[0], key=key)
+                    continue
+            cp = (c['l'], c['op'], c['r']) if c.get('k') == 'bin' and c['op'] in CMP_OPS else None
+            subject = strip_casts(cp[0]) if cp and is_null_const(cp[2]) else (strip_casts(cp[2]) if cp and is_null_const(cp[0]) else c)
+            if subject.get('k') == 'ref' and subject.get('dk') == 'local' and u.ty(subject.get('ty0', subject['ty']))['c'] == 'ptr':
+                ds = [strip_casts(x) for x in defs_of(subject['d']) if not is_null_const(x)]
+                if ds and all(x.get('k') == 'call' and call_reason(x) for x in ds):
+                    R.ob('ENT1', fn, label[1], what, True, call_reason(ds[0]), key=key)
+                    continue
+            if cp and cp[1] in CMP_OPS:
+                l, r = _offlen_form(cp[0]), _offlen_form(cp[2])
+                if l is not None and r is not None and (set(l) | set(r)) & {'offset', 'length'}:
+                    d = dict(l)
+                    for k_, v_ in r.items():
+                        d[k_] = d.get(k_, 0) - v_
+                    op = cp[1]
+                    if not taken:
+                        op = {'<': '>=', '<=': '>', '>': '<=', '>=': '<', '==': '!=', '!=': '=='}[op]
+                    if op in ('<', '<='):
+                        d = {k_: -v_ for k_, v_ in d.items()}
+                        op = {'<': '>', '<=': '>='}[op]
+                    # now: d (op) 0 with op in > >= == !=
+                    ok = False
+                    slack = None
+                    if op in ('>', '>=') and d.get('offset', 0) == 1 and d.get('length', 0) == -1:
+                        slack = d.get(1, 0) - (1 if op == '>' else 0)      # offset - length + slack >= 0: up to `slack` bytes readable
+                        ok = slack <= 0
+                    R.ob('ENT1', fn, label[1], what, ok,
+                         'holds only when nothing is readable at the cursor' if ok else
+                         ('also holds with %d readable byte(s) left at the cursor: a text whose value is those bytes is refused although '
+                          'the value parser would accept it' % slack if slack is not None else
+                          'a comparison of the read position that does not say that nothing is left to read'), key=key)
+                    continue
+            admitted = set()
+            known = False
+            for b in range(256):
+                v = _evalb(c, b, {}, u, is_cursor)
+                if v is None:
+                    continue
+                known = True
+                if bool(v) == taken:
+                    admitted.add(b)
+            if known:
+                hit = sorted(admitted & openers)
+                R.ob('ENT1', fn, label[1], what, not hit, 'the bytes refused here open no value' if not hit else
+                     'refuses first bytes %s, which open a value' % ''.join(chr(b) for b in hit), key=key)
+                continue
+            raise AnalysisBroken('ENT1: %s: the reason %s for giving up in front of %s is not one this rule can judge' % (
+                fn.where(label[1]), expr_str(c)[:60], parser))
+    R.floor('ENT1', 'ways of %s to give up before or at the call of %s' % (fn_name, parser), n, floor)
+
+
 # ---- C02 structure: dispatch on the first byte, members in input order -------------------------------------------------------
 
 EXPECTED_FIRST_BYTES = {
@@ -3046,6 +3197,40 @@ def tab21(units, R):
     rets = [r for r in cfg.returns() if r.expr is not None and is_ref(r.expr)]
     if rets:
         acc_var = strip_casts(rets[0].expr)['d']
+    # a conversion left to the C library: strtoul(copy, &end, 16) on a terminated copy of the four bytes.  What the library takes is
+    # its documented syntax (white space, a sign, 0x, then digits of the base); the bytes that get that far are those the
+    # function's own tests in front of the call let through
+    conv = [c for c in fn.calls() if callee_name(c) in ('strtoul', 'strtol', 'strtoull', 'strtoll')]
+    conv_after = set()
+    conv_set = None
+    conv_base = None
+    if conv:
+        if len(conv) != 1 or len(conv[0]['args']) != 3:
+            raise AnalysisBroken('TAB21: parse_hex4 converts through %d library calls' % len(conv))
+        cnode = cfg.node_of_expr(conv[0]['id'])
+        if cnode is None:
+            raise AnalysisBroken('TAB21: conversion call not placed in the CFG')
+        conv_after = cfg.reachable(cnode.id) - {cnode.id}
+        if cnode.id in conv_after:
+            raise AnalysisBroken('TAB21: the conversion call of parse_hex4 sits in a loop')
+        conv_base = const_val(conv[0]['args'][2])
+        src = strip_casts(conv[0]['args'][0])
+        if not (src.get('k') == 'ref' and u.ty(src.get('ty0', src['ty']))['c'] == 'array'):
+            raise AnalysisBroken('TAB21: the conversion of parse_hex4 does not read a local copy')
+        fills = [c for c in fn.calls() if callee_name(c) in ('memcpy', '__builtin_memcpy', '__builtin___memcpy_chk') and
+                 strip_casts(c['args'][0]).get('d') == src['d'] and strip_casts(c['args'][1]).get('d') == inp and const_val(c['args'][2]) == 4]
+        if not fills:
+            raise AnalysisBroken('TAB21: how the copy handed to %s is filled from the input is not modelled' % callee_name(conv[0]))
+        endp = strip_casts(conv[0]['args'][1])
+        endvar = strip_casts(endp['e']).get('d') if endp.get('k') == 'un' and endp['op'] == '&' else None
+        end_checked = endvar is not None and any(
+            n.kind == 'branch' and n.id in conv_after and any(z.get('k') == 'ref' and z.get('d') == endvar for z in walk(n.expr))
+            for n in cfg.nodes)
+        if end_checked:
+            digits_of_base = set(b'0123456789abcdefABCDEF') if conv_base == 16 else set(b'0123456789')
+            conv_set = digits_of_base | {9, 10, 11, 12, 13, 32, ord('+'), ord('-')} | ({ord('x'), ord('X')} if conv_base in (16, 0) else set())
+        else:
+            conv_set = set(range(256))       # whatever follows the first digit is simply left unconverted
     # path exploration: every path of the (acyclic) loop body is followed separately with the set of byte values that take
     # it and the expressions held by the locals on it; at the loop head everything is forgotten (one byte per iteration)
     seen = set()
@@ -3086,7 +3271,7 @@ def tab21(units, R):
                 else:
                     env.pop(d, None)
         elif node.kind == 'return':
-            if node.expr is not None and const_val(node.expr) == 0:
+            if node.expr is not None and const_val(node.expr) == 0 and nid not in conv_after:
                 rejected.update(B)
             continue
         envt2 = tuple(sorted(env.items(), key=lambda kv: kv[0]))
@@ -3123,10 +3308,19 @@ def tab21(units, R):
                     B2 = frozenset(keep)
             work.append((y, B2, envt2))
     accepted = set(range(256)) - rejected
+    if conv_set is not None:
+        accepted &= conv_set
     want = set(b'0123456789abcdefABCDEF')
     R.ob('TAB21', fn, None, 'parse_hex4 accepts exactly the bytes 0-9 a-f A-F', accepted == want,
-         '22 bytes accepted' if accepted == want else 'also accepts %s / refuses %s' % (
-             sorted(accepted - want)[:10], sorted(want - accepted)[:10]), key='hexdigits')
+         '22 bytes accepted' if accepted == want else 'also accepts %s / refuses %s%s' % (
+             sorted(accepted - want)[:10], sorted(want - accepted)[:10],
+             ' (%s takes white space, a sign and a prefix as well; the tests in front of it have to keep them out)' % callee_name(conv[0])
+             if conv else ''), key='hexdigits')
+    if conv:
+        R.ob('TAB21', fn, conv[0], 'each hexadecimal digit contributes its value', conv_base == 16,
+             'converted by %s with base %s' % (callee_name(conv[0]), conv_base), key='hexvalues')
+        R.floor('TAB21', 'digit contributions found', 1, 1)
+        return
     # values
     bad = []
     seen = set()
@@ -3173,16 +3367,208 @@ def num2(units, R):
             defs += [a['r'] for a in assignments(fn) if is_ref(a['l']) and strip_casts(a['l'])['d'] == x['d']]
             return len(defs) == 1 and is_consumed(defs[0], depth + 1)
         return False
+    cfg = fn.cfg()
+
+    def reaching(var_d, use):
+        defs = {}
+        for nd in cfg.nodes:
+            root = nd.decl.get('init') if nd.kind == 'decl' else getattr(nd, 'expr', None)
+            if nd.kind == 'decl' and nd.decl['d'] == var_d and 'init' in nd.decl:
+                defs[nd.id] = nd.decl['init']
+            if root is None:
+                continue
+            for x in walk(root):
+                if x.get('k') == 'bin' and x['op'] in ASSIGN_OPS and is_ref(x['l']) and strip_casts(x['l'])['d'] == var_d:
+                    defs[nd.id] = x['r'] if x['op'] == '=' else x
+                elif x.get('k') == 'un' and x['op'] in ('post++', 'pre++', 'post--', 'pre--') and is_ref(x['e']) and strip_casts(x['e'])['d'] == var_d:
+                    defs[nd.id] = x
+        un = cfg.node_of_expr(use['id'])
+        return [e_ for (i_, e_) in defs.items() if un is not None and un.id in cfg.reachable(i_, stop=set(defs) - {i_})]
     n = 0
     for a in assignments(fn):
         if not is_mem(a['l'], 'offset'):
             continue
         n += 1
         ok = a['op'] == '+=' and is_consumed(a['r'])
+        r0 = strip_casts(a['r'])
+        if not ok and a['op'] == '+=' and r0.get('k') == 'ref' and r0.get('dk') == 'local':
+            # a local that holds different things at different times (the scan index, then the advance): what counts is what it
+            # holds where the offset is advanced
+            rd = reaching(r0['d'], a)
+            other = [x for x in rd if not is_consumed(x)]
+            second = [x for x in other if strip_casts(x).get('k') == 'call' and callee_name(strip_casts(x)) in u.functions]
+            if rd and second and len(second) == len(other):
+                raise AnalysisBroken('NUM2: %s: the advance of the offset is, on some paths, the result of %s: a second conversion '
+                                     'next to strtod, whose count of converted bytes this rule does not model' % (
+                                         fn.where(a), callee_name(strip_casts(second[0]))))
+            ok = bool(rd) and not other
         R.ob('NUM2', fn, a, 'the offset advances by what strtod consumed', ok,
              '%s - %s' % (endv['n'], start) if ok else 'advances by %s, not by %s - %s: bytes strtod did not convert become part of the number '
              '(or converted ones are left behind)' % (expr_str(strip_casts(a['r']))[:40], endv['n'], start), key='advance')
     R.floor('NUM2', 'offset stores in parse_number', n, 1)
+
+
+# ---- NUM5: digits accumulated in a double stay exact -----------------------------------------------------------------------
+
+def num5(units, R, unit_names=('cJSON.c',), floor=0):
+    """A hand-written decimal conversion `v = v * 10 + digit` in a double is exact only while v stays below 2^53, that is for at
+    most 15 digits (10^15 < 2^53 < 10^16); with more digits the accumulation rounds more than once and differs from the correctly
+    rounded value strtod gives - the text a double is printed as (17 digits) then no longer reads back as the same double.  For
+    every such accumulation inside a loop, the number of turns that reach it is bounded from the loop's own tests."""
+    n = 0
+    for un in unit_names:
+        u = units[un]
+        for fn in u.function_list:
+            accs = []
+            for a in assignments(fn):
+                if a['op'] != '=' or not is_ref(a['l']) or u.ty(strip_casts(a['l']).get('ty0', strip_casts(a['l'])['ty']))['c'] != 'float':
+                    continue
+                vd = strip_casts(a['l'])['d']
+                r = strip_casts(a['r'])
+                if r.get('k') != 'bin' or r['op'] != '+':
+                    continue
+                for side in (r['l'], r['r']):
+                    m = strip_casts(side)
+                    if m.get('k') == 'bin' and m['op'] == '*':
+                        fs = [strip_casts(m['l']), strip_casts(m['r'])]
+                        if any(f.get('k') == 'ref' and f.get('d') == vd for f in fs) and any(
+                                (const_val(f) == 10) or (f.get('k') == 'float' and float(f.get('fval', 0)) == 10.0) for f in fs):
+                            accs.append(a)
+            if not accs:
+                continue
+            cfg = fn.cfg()
+            heads = [x.id for x in cfg.nodes if x.kind == 'nop' and x.name == 'loop-head']
+            for a in accs:
+                an = cfg.node_of_expr(a['id'])
+                cyc = None
+                for h in heads:
+                    fw = cfg.reachable(h)
+                    bw = cfg.reachable(h, forward=False)
+                    if an.id in fw and an.id in bw:
+                        c_ = fw & bw
+                        if cyc is None or len(c_) < len(cyc[1]):
+                            cyc = (h, c_)
+                if cyc is None:
+                    continue
+                n += 1
+                head, body = cyc
+                what = 'the digits accumulated into %s by %s stay exactly representable' % (strip_casts(a['l'])['n'], expr_str(a)[:50])
+                # per-turn change of every integer local inside the cycle
+                step = {}
+                for nid in body:
+                    nd = cfg.nodes[nid]
+                    root = nd.decl.get('init') if nd.kind == 'decl' else getattr(nd, 'expr', None)
+                    if root is None:
+                        continue
+                    for x in walk(root):
+                        if x.get('k') == 'un' and x['op'] in ('post++', 'pre++') and is_ref(x['e']):
+                            d_ = strip_casts(x['e'])['d']
+                            step[d_] = None if d_ in step else 1
+                        elif (x.get('k') == 'un' and x['op'] in ('post--', 'pre--') and is_ref(x['e'])) or \
+                                (x.get('k') == 'bin' and x['op'] in ASSIGN_OPS and is_ref(x['l'])):
+                            d_ = strip_casts(x['e'] if x.get('k') == 'un' else x['l'])['d']
+                            if x is not a:
+                                step[d_] = None
+
+                def lin(e):
+                    e = strip_casts(e)
+                    v = const_val(e)
+                    if v is not None:
+                        return {1: v}
+                    if e.get('k') == 'ref' and e.get('dk') in ('local', 'param'):
+                        return {e['d']: 1}
+                    if e.get('k') == 'bin' and e['op'] in ('+', '-'):
+                        l, r_ = lin(e['l']), lin(e['r'])
+                        if l is None or r_ is None:
+                            return None
+                        out = dict(l)
+                        for k_, v_ in r_.items():
+                            out[k_] = out.get(k_, 0) + (v_ if e['op'] == '+' else -v_)
+                        return out
+                    return None
+
+                def entry_value(d_):
+                    # the value a local has when the loop is entered: its only definition outside the cycle that reaches the head
+                    defs = {}
+                    for nd in cfg.nodes:
+                        if nd.id in body:
+                            continue
+                        root = nd.decl.get('init') if nd.kind == 'decl' else getattr(nd, 'expr', None)
+                        if nd.kind == 'decl' and nd.decl['d'] == d_ and 'init' in nd.decl:
+                            defs[nd.id] = nd.decl['init']
+                        if root is None:
+                            continue
+                        for x in walk(root):
+                            if x.get('k') == 'bin' and x['op'] in ASSIGN_OPS and is_ref(x['l']) and strip_casts(x['l'])['d'] == d_:
+                                defs[nd.id] = x['r'] if x['op'] == '=' else None
+                            elif x.get('k') == 'un' and x['op'] in ('post++', 'pre++', 'post--', 'pre--') and is_ref(x['e']) and \
+                                    strip_casts(x['e'])['d'] == d_:
+                                defs[nd.id] = None
+                    rd = [e_ for (i_, e_) in defs.items() if head in cfg.reachable(i_, stop=(set(defs) - {i_}) | (body - {head}))]
+                    return rd[0] if len(rd) == 1 else None
+                best = None
+                onpath = cfg.reachable(head, stop={an.id}) & cfg.reachable(an.id, forward=False, stop={head}) | {head}
+                for nid in onpath & body:
+                    nd = cfg.nodes[nid]
+                    if nd.kind != 'branch':
+                        continue
+                    c = strip_casts(nd.expr)
+                    if c.get('k') != 'bin' or c['op'] not in ('<', '<=', '>', '>='):
+                        continue
+                    l, r_ = lin(c['l']), lin(c['r'])
+                    if l is None or r_ is None:
+                        continue
+                    d = dict(l)
+                    for k_, v_ in r_.items():
+                        d[k_] = d.get(k_, 0) - v_
+                    for (y, label) in cfg.succ[nid]:
+                        if label is None or label[0] not in ('T', 'F'):
+                            continue
+                        if an.id not in cfg.reachable(y, stop={head}) and y != an.id:
+                            continue
+                        op = c['op'] if label[0] == 'T' else {'<': '>=', '<=': '>', '>': '<=', '>=': '<'}[c['op']]
+                        dd = dict(d)
+                        if op in ('>', '>='):
+                            dd = {k_: -v_ for k_, v_ in dd.items()}
+                            op = {'>': '<', '>=': '<='}[op]
+                        # dd < 0 (or <= 0) on the way to the accumulation: E = dd - const;  E <= K - 1
+                        K = -dd.get(1, 0) + (0 if op == '<' else 1)
+                        E = {k_: v_ for k_, v_ in dd.items() if k_ != 1 and v_ != 0}
+                        if not E:
+                            continue
+                        delta = 0
+                        okd = True
+                        for k_, v_ in E.items():
+                            st_ = step.get(k_, 0)
+                            if st_ is None:
+                                okd = False
+                            else:
+                                delta += v_ * st_
+                        if not okd or delta != 1:
+                            continue
+                        tot = {}
+                        for k_, v_ in E.items():
+                            ev = entry_value(k_) if k_ in step else None
+                            fv = lin(ev) if (k_ in step and ev is not None) else ({k_: 1} if k_ not in step else None)
+                            if fv is None:
+                                tot = None
+                                break
+                            for k2, v2 in fv.items():
+                                tot[k2] = tot.get(k2, 0) + v_ * v2
+                        if tot is None or any(v_ != 0 for k_, v_ in tot.items() if k_ != 1):
+                            continue
+                        c0 = tot.get(1, 0)
+                        digits = K - c0
+                        if best is None or digits < best[0]:
+                            best = (digits, nd)
+                if best is None:
+                    raise AnalysisBroken('NUM5: %s: no test of the loop bounds how many digits are accumulated into a double' % fn.where(a))
+                digits = best[0]
+                ok = digits <= 15
+                R.ob('NUM5', fn, a, what, ok, 'at most %d digits (the test at %s), 10^%d %s 2^53' % (
+                    digits, fn.where(best[1].expr), digits, '<' if ok else '>') + ('' if ok else
+                    ': from the 16th digit on every step rounds, and the sum is no longer the correctly rounded value of the text'), key='acc:%s' % fn.name)
+    R.floor('NUM5', 'decimal accumulations in a double inside a loop', n, floor)
 
 
 # ---- NUM3: a hoisted scan bound covers all of the remaining input --------------------------------------------------------
